@@ -21,7 +21,7 @@ RULE = (
     "E2 exploration over REAL two-process executions (the real ExternalOptimizer parent and the real runner child, started "
     "through a PATH shim that wraps the child's request function and pipe communicator with a message counter and a fault "
     "injector). (a) trace equality: a configuration alphabet {slsqp plain; with bounds + linear + non-linear constraints; "
-    "mask; small max_functions; a start point handed to the step that differs from the configured initial values; NaN at evaluation k (TOO_FEW_REALIZATIONS); user abort at evaluation k; nelder-mead; "
+    "mask; mask with two non-linear constraints; small max_functions; a start point handed to the step that differs from the configured initial values; NaN at evaluation k (TOO_FEW_REALIZATIONS); user abort at evaluation k; nelder-mead; "
     "differential_evolution(seed); two optimizations run one after the other in the same process with 'external/scipy/<method>' "
     "names} is run in-process and as external/<method>: evaluator request bytes, result bytes and "
     "exit code must be equal. (b) crash points: with M messages exchanged in the baseline run, for EVERY m <= M the child is "
@@ -38,8 +38,8 @@ ASSUMPTIONS = [
     "a hang is detected by the wall-clock horizon of 120 s per execution",
 ]
 BOUNDS = {
-    "quick": "(a) 5 configurations; (b) crash points at every message of a short baseline run, 2 death modes + raise; (c) every evaluation; (d) every index, both sides",
-    "thorough": "(a) all 10 configurations; (b) every message x 5 fault kinds on two configurations; (c), (d) as quick on two configurations",
+    "quick": "(a) 6 configurations; (b) crash points at every message of a short baseline run, 2 death modes + raise; (c) every evaluation; (d) every index, both sides",
+    "thorough": "(a) all 11 configurations; (b) every message x 5 fault kinds on two configurations; (c), (d) as quick on two configurations",
 }
 HORIZON = 120
 
@@ -71,6 +71,11 @@ def worker_config(name: str, external: bool) -> dict[str, Any]:
         config["variables"]["upper_bounds"] = [2.0, 2.0, 3.0]
         config["linear_constraints"] = {"coefficients": [[1.0, 1.0, 0.0]], "lower_bounds": [-1.0], "upper_bounds": [4.0]}
         config["nonlinear_constraints"] = {"lower_bounds": [-50.0], "upper_bounds": [50.0]}
+    if "twocon" in name:
+        # two non-linear constraints: together with a mask the gradient matrix handed to the back-end used to be
+        # Fortran-ordered in-process only (fixed by c3ced68)
+        config["nonlinear_constraints"] = {"lower_bounds": [-50.0, -60.0], "upper_bounds": [50.0, 60.0]}
+        config["optimizer"]["options"] = {"maxiter": 4}
     if "mask" in name:
         config["variables"]["mask"] = [True, False, True]
     if "maxfun" in name:
@@ -110,7 +115,7 @@ def worker(case: dict[str, Any]) -> dict[str, Any]:
     external = case["external"]
     config = worker_config(name, external)
     nan_at = next((int(f[3:]) for f in name.split(":")[1:] if f.startswith("nan")), None)
-    n_con = 1 if "nonlinear_constraints" in config else 0
+    n_con = len(config["nonlinear_constraints"]["lower_bounds"]) if "nonlinear_constraints" in config else 0
     trace: list[Any] = []
     state = {"evals": 0}
     fault = case.get("fault") or {}
@@ -132,6 +137,8 @@ def worker(case: dict[str, Any]) -> dict[str, Any]:
             objectives[i, 0] = float((x - np.array([0.25, 0.5, -0.5])) @ (x - np.array([0.25, 0.5, -0.5]))) * (1 + 0.5 * r) + 0.125 * r
             if constraints is not None:
                 constraints[i, 0] = float(x[0] + 2 * x[2]) + r
+                if n_con > 1:
+                    constraints[i, 1] = float(x[0] * x[2]) - 0.5 * r
         if (fault.get("side") == "evaluator" and fault.get("kind") == "nan" and fault.get("at") == k) or nan_at == k:
             objectives[:, 0] = np.nan
         trace.append(["call", variables.tobytes().hex(), context.realizations.tobytes().hex(),
@@ -316,7 +323,8 @@ def judge(case: dict[str, Any]) -> Judgement:
     raise ValueError(kind)
 
 
-EQUAL_CONFIGS = ["slsqp", "slsqp:constraints", "slsqp:mask", "slsqp:maxfun", "slsqp:relative", "slsqp:start", "nelder-mead", "de"]
+EQUAL_CONFIGS = ["slsqp", "slsqp:constraints", "slsqp:mask", "slsqp:twocon:mask", "slsqp:maxfun", "slsqp:relative", "slsqp:start",
+                 "nelder-mead", "de"]
 
 
 def message_count(config: str) -> int:
@@ -328,7 +336,7 @@ def message_count(config: str) -> int:
 def shards(tier: str, seed: int) -> list[dict[str, Any]]:
     quick = tier == "quick"
     out: list[dict[str, Any]] = []
-    equal = ["slsqp", "slsqp:constraints", "de", "slsqp:relative", "slsqp:start"] if quick else EQUAL_CONFIGS
+    equal = ["slsqp", "slsqp:constraints", "de", "slsqp:relative", "slsqp:start", "slsqp:twocon:mask"] if quick else EQUAL_CONFIGS
     for name in equal:
         out.append({"kind": "equal", "config": name, "external": True})
     # two optimizations in one process: what the first one leaves behind must not change the second
